@@ -449,3 +449,78 @@ def c13_stale_index(actual: int, recorded: int, layout: int) -> int:
     post: _ >= 0
     """
     return _validate(actual, recorded, layout)
+
+
+# --------------------------------------------------------------------------
+# several GVF files: records of one transcript gathered through pointers of all files (C06 / C13)
+# --------------------------------------------------------------------------
+class _Meta:
+    def is_circ_rna(self):
+        return False
+
+
+def _multi_file(ka, kb, la, lb, swap):
+    """file A with keys ka (<=2 records), file B with keys kb (<=2 records); swap = file order"""
+    from moPepGen.seqvar.VariantRecordPoolOnDisk import VariantRecordPoolOnDisk
+    files = []
+    uid = 0
+    for keys, lens in ((ka, la), (kb, lb)):
+        lines = [_Line(lens[0], None)]                     # one header line per file
+        for i, k in enumerate(keys):
+            if not 0 <= k <= 1:
+                return SKIP
+            if lens[i + 1] < 1:
+                return SKIP
+            lines.append(_Line(lens[i + 1], _Rec(KEYS[k], uid)))
+            uid += 1
+        if lens[0] < 1:
+            return SKIP
+        files.append(_Handle(lines))
+    order = [1, 0] if swap else [0, 1]
+    pool = VariantRecordPoolOnDisk(gvf_files=['a.gvf', 'b.gvf'])
+
+    class _H:
+        def __enter__(self):
+            return self
+
+        def __exit__(self, *a):
+            return False
+
+    with patched((gvfindex.io, 'line_to_variant_record', lambda line: line.rec),
+                 (vpod, 'open', lambda *a, **k: _H()),
+                 (vpod.GVFMetadata, 'parse', lambda h: _Meta())):
+        for i in order:
+            pool.generate_index('f.gvf', files[i])
+        got = {}
+        for key, ptrs in pool.pointers.items():
+            recs = []
+            for p in ptrs:
+                recs += p.load()
+            got[key] = sorted(r.uid for r in recs)
+            if any(r.transcript_id != key for r in recs):
+                return -3
+    if any(h.misaligned for h in files):
+        return -4
+    want = {}
+    uid = 0
+    for keys in (ka, kb):
+        for k in keys:
+            want.setdefault(KEYS[k], []).append(uid)
+            uid += 1
+    if got != want:
+        return -5                  # records gathered through the pointers of all files != union of the files
+    return OK
+
+
+@cond('C06', bounds='2 GVF files with <= 2 records each over 2 transcripts (any grouping / split), one header line '
+      'each, UNBOUNDED symbolic byte lengths, both file orders', encodes=ENC_I + [
+      'moPepGen.seqvar.VariantRecordPoolOnDisk.VariantRecordPoolOnDisk.generate_index'], codes=CODES_I,
+      tokens=True, stubs=['as c13_index_scan', 'open / GVFMetadata.parse -> in-memory'], timeout=400)
+def c06_multi_file_pointers(ka: List[int], kb: List[int], la: List[int], lb: List[int],
+                            swap: bool) -> int:
+    """
+    pre: 1 <= len(ka) <= 2 and 1 <= len(kb) <= 2
+    pre: len(la) == 3 and len(lb) == 3
+    post: _ >= 0
+    """
+    return _multi_file(ka, kb, la, lb, swap)
